@@ -11,6 +11,8 @@ def obligations(tier):
               bounds="4 lines x 3 kinds, arbitrary (overlapping) acceptance; exactly-one-list, one warning per rejected line, locality"),
            Ob("C14.rx.disjoint", "PY", "vf.rx_props", "c14", 300, funcs=("chartparse.sync.*.ParsedData._regex", "chartparse.instrument.*.ParsedData._regex"),
               bounds="all strings: 6 pairwise emptiness queries")]
+    obs.append(Ob("C14.history", "CH", "harness.h_track", "dispatcher_history", 600, funcs=(TR + "parse_data_from_chart_lines",),
+                  bounds="two consecutive dispatches over the same 2 line texts with independent acceptance patterns: the second is unaffected by the first"))
     for t in range(3):
         obs.append(Ob(f"C14.wiring.track{t}", "CH", "harness.h_track", "track_dispatch_wiring", 300, {"VF_TRACK": t},
                       funcs=("chartparse.instrument.InstrumentTrack._parse_data_from_chart_lines", "chartparse.sync.SyncTrack._parse_data_from_chart_lines",
